@@ -19,15 +19,37 @@ enclosing function, a package-level variable, a local that aliases one of these,
   `ApplySlice(_, step, _)`, `Reshape/MustReshape/ReshapeFast(shape)`.
 * loop variable: the closure gets the loop variable as a parameter and uses neither the loop variable itself nor a
   variable declared in the loop body.
-* join: every path through the closure ends with exactly one send on the done channel and there is no `return`; the
-  number of goroutines launched is a loop bound (or a counter incremented once next to the `go` statement) that is
-  not modified elsewhere, and a later loop receives exactly that many times; the channel is used for nothing else.
+* cell coverage (`cover`): how the cell indices reach the per-cell body. `direct`: the launch loop variable is passed
+  to the closure as its cell parameter — one goroutine per index `0 … B-1` of the counted launch loop. `pool` (a bounded
+  worker pool): the closure ranges at its top level over a channel of cell indices that the enclosing function made
+  with the capacity of the fill bound `B`, filled by ONE counted loop `for j := 0; j < B; j++ { cells <- j }` (exactly
+  `0 … B-1`, each once), closed before the launch loop — or that fill loop and the `close` are the whole body of a
+  dedicated goroutine started before the launch loop (any capacity then) — and used for nothing else; the range variable is the cell index,
+  the range body (no `break`/`continue`/`return`/`goto`) is the per-cell body; the worker count is at least 1 whenever
+  `B` is (`runtime.GOMAXPROCS(0)`/`NumCPU()`/a positive literal, at most clamped by `if W > B { W = B }`). Every value
+  sent on a channel is received exactly once (TRUSTED: Go channel semantics), so every index is handled by exactly one
+  worker, once: a TASK of the C05 theorems is then a worker, its footprint the union of the rows of the cells it
+  received — pairwise disjoint because the per-cell footprints are and no index reaches two workers.
+* join, `chan` form: every path through the closure ends with exactly one send on the done channel and there is no
+  `return`; the number of goroutines launched is a loop bound (or a counter incremented once next to the `go`
+  statement) that is not modified from the launch loop on, and a later loop receives exactly that many times; the
+  channel is used for nothing else. `waitGroup` form: a `sync.WaitGroup` declared in the enclosing function;
+  `Add(n)` with `n` the launch count as a statement before the launch loop (or `Add(1)` next to each `go` statement,
+  before it); exactly one `Done()` in the closure, as the last action of every path (or deferred as the closure's
+  first statement — then `return`s are allowed); exactly one `Wait()`, a later statement of the list the launch loop is
+  in, with nothing in between that could leave the function; the WaitGroup is used for nothing else.
+* followed calls: a method of the module called in the closure (a named per-cell method `m.runCell(i, …)`, per-cell
+  view helpers `views.Cell(i).States()` in another package), and a plain function that is handed something shared, is
+  not judged by its call alone: the extractor walks its body as part of the task with the parameters bound to the
+  classes of the arguments (cell index, shared array, goroutine-local vector, task-local struct with per-field
+  knowledge) and its events are events of the site; what it returns is classified by its return statements.
+  `whole` = a shared array reached through such a binding or through a field of a shared struct (like `captured`).
 * callees: the plain functions reachable from the closure inside the repository assign to nothing but their own
   locals (no package-level scratch state).
 -/
 namespace OW.Sim.RunFactsCheck
 
-inductive Root | captured | global | alias | viewOwn | viewShared
+inductive Root | captured | global | alias | viewOwn | viewShared | whole
   deriving DecidableEq, Repr
 inductive Access | assign | elemAssign | addr | call | arg | send | recv
   deriving DecidableEq, Repr
@@ -39,6 +61,22 @@ inductive Kind | cells | models | template
   deriving DecidableEq, Repr
 inductive LaunchForm | counted | counter | other
   deriving DecidableEq, Repr
+inductive JoinForm | chan | waitGroup | none
+  deriving DecidableEq, Repr
+inductive CoverForm | direct | pool
+  deriving DecidableEq, Repr
+
+/-- the channel of cell indices of a worker pool (all `false` for a site that is not one) -/
+structure Pool where
+  buffered : Bool := false          -- made in the enclosing function with a capacity (or filled by a dedicated goroutine)
+  fillOk : Bool := false            -- exactly one counted loop `for j := 0; j < B; j++ { cells <- j }` before the launch loop, no other send
+  capMatches : Bool := false        -- the capacity is the fill bound `B` (or filled by a dedicated goroutine)
+  closed : Bool := false            -- `close(cells)` between the fill loop and the launch loop (or last statement of the filler goroutine)
+  rangeClean : Bool := false        -- `for i := range cells` at the top level of the worker, body without break/continue/return/goto
+  otherChanUses : Nat := 0
+  boundReassigned : Bool := false   -- a variable of `B` is assigned after the channel is made
+  workersPositive : Bool := false   -- at least one worker whenever `B ≥ 1`
+  deriving Repr
 
 structure Event where
   line : Nat
@@ -57,6 +95,11 @@ structure Site where
   file : String
   func : String
   kind : Kind
+  cover : CoverForm := .direct
+  pool : Pool := {}
+  join : JoinForm := .chan
+  doneDeferred : Bool := false      -- waitGroup: `defer wg.Done()` is the closure's first statement
+  addOk : Bool := false             -- waitGroup: `Add(n)` before the launch loop / `Add(1)` next to the go statement
   cellParamBound : Bool
   capturesLoopVar : Bool
   loopBodyVarsCaptured : Nat
@@ -100,6 +143,8 @@ def Event.ownCell (e : Event) : Bool :=
   | .viewOwn, _ => true
   | .captured, .ownLit => true
   | .captured, .ownVec => true
+  | .whole, .ownLit => true
+  | .whole, .ownVec => true
   | _, _ => false
 
 def Event.sharedWrite (e : Event) : Bool :=
@@ -135,18 +180,33 @@ def Event.ok (e : Event) : Bool := !e.sharedWrite && !e.sharedLoc && !e.badArg &
 
 def Site.loopVarOk (s : Site) : Bool := s.cellParamBound && !s.capturesLoopVar && s.loopBodyVarsCaptured == 0
 
+def Pool.ok (p : Pool) : Bool :=
+  p.buffered && p.fillOk && p.capMatches && p.closed && p.rangeClean && p.otherChanUses == 0 && !p.boundReassigned &&
+    p.workersPositive
+
+/-- every cell index `0 … B-1` reaches the per-cell body exactly once -/
+def Site.coverOk (s : Site) : Bool :=
+  s.cellParamBound && (match s.cover with | .direct => true | .pool => s.pool.ok)
+
 def Site.sendOk (s : Site) : Bool :=
-  s.hasChan && s.sendTail && s.returnsInClosure == 0 &&
-    (match s.kind with | .models => decide (1 ≤ s.sends) | _ => s.sends == 1)
+  s.hasChan && s.sendTail &&
+    (match s.join with
+      | .chan => s.returnsInClosure == 0 && (match s.kind with | .models => decide (1 ≤ s.sends) | _ => s.sends == 1)
+      | .waitGroup => (s.returnsInClosure == 0 || s.doneDeferred) && s.sends == 1
+      | .none => false)
 
 def Site.launchOk (s : Site) : Bool :=
   (match s.launch with | .other => false | _ => true) && s.goTopLevelOnce && s.launchLoopClean && !s.countReassigned
 
+/-- `chan`: a later loop receives exactly the launch count; `waitGroup`: `Add` of the launch count, one `Wait()` after the
+launch loop (`recvLoopFound` = the `Wait()` is there, `sameBound` = the `Add` count is the launch count) -/
 def Site.recvOk (s : Site) : Bool :=
-  s.recvLoopFound && s.sameBound && s.recvPerIter == 1 && s.recvLoopClean && s.otherChanUses == 0
+  s.recvLoopFound && s.sameBound && s.recvPerIter == 1 && s.recvLoopClean && s.otherChanUses == 0 &&
+    (match s.join with | .chan => true | .waitGroup => s.addOk | .none => false)
 
 def Site.ok (s : Site) : Bool :=
-  s.events.all Event.ok && s.loopVarOk && s.unsupported == 0 && s.sendOk && s.launchOk && s.recvOk && s.calleeWrites == 0
+  s.events.all Event.ok && s.loopVarOk && s.coverOk && s.unsupported == 0 && s.sendOk && s.launchOk && s.recvOk &&
+    s.calleeWrites == 0
 
 /-- names of the rules a site violates (for the report) -/
 def Site.violated (s : Site) : List String :=
@@ -155,6 +215,7 @@ def Site.violated (s : Site) : List String :=
   (if s.events.any Event.badArg then ["shared-arg"] else []) ++
   (if s.events.any Event.badChan || !s.sendOk || !s.launchOk || !s.recvOk then ["join"] else []) ++
   (if !s.loopVarOk then ["loop-var"] else []) ++
+  (if !s.coverOk && s.cellParamBound then ["cell-coverage"] else []) ++
   (if s.unsupported != 0 then ["unsupported"] else []) ++
   (if s.calleeWrites != 0 then ["callee-global-write"] else [])
 
@@ -164,17 +225,19 @@ def runFactsOk (f : Facts) : Bool :=
   f.sites.all Site.ok
 
 /-- what `runFactsOk = true` gives: in every analysed closure no event is a shared write, no shared vector is used as
-a location, the loop variable reaches the closure only as a parameter, and the send / receive counts match. -/
+a location, the loop variable reaches the closure only as a parameter, every cell index reaches the per-cell body once
+(directly or through the pool's channel), and the send / receive (Done / Add / Wait) counts match. -/
 theorem runFactsOk_sound (f : Facts) (h : runFactsOk f = true) :
     ∀ s, s ∈ f.sites →
       (∀ e, e ∈ s.events → e.sharedWrite = false ∧ e.sharedLoc = false ∧ e.badArg = false ∧ e.badChan = false) ∧
-      s.loopVarOk = true ∧ s.sendOk = true ∧ s.launchOk = true ∧ s.recvOk = true ∧ s.calleeWrites = 0 := by
+      s.loopVarOk = true ∧ s.sendOk = true ∧ s.launchOk = true ∧ s.recvOk = true ∧ s.calleeWrites = 0 ∧
+      s.coverOk = true := by
   intro s hs
   simp only [runFactsOk, Bool.and_eq_true, List.all_eq_true] at h
   have hsite := h.2 s hs
   simp only [Site.ok, Bool.and_eq_true, List.all_eq_true, beq_iff_eq] at hsite
-  obtain ⟨⟨⟨⟨⟨⟨he, hl⟩, _⟩, hso⟩, hla⟩, hr⟩, hc⟩ := hsite
-  refine ⟨?_, hl, hso, hla, hr, hc⟩
+  obtain ⟨⟨⟨⟨⟨⟨⟨he, hl⟩, hcov⟩, _⟩, hso⟩, hla⟩, hr⟩, hc⟩ := hsite
+  refine ⟨?_, hl, hso, hla, hr, hc, hcov⟩
   intro e hee
   have := he e hee
   simp only [Event.ok, Bool.and_eq_true, Bool.not_eq_true'] at this
